@@ -7,6 +7,7 @@ pub mod util {
     use crate::*;
     use crate::symspec::*;
     verus! {
+    broadcast use {crate::symspec::lemma_texts_subrange, crate::symspec::lemma_drop_first_is_subrange, crate::symspec::axiom_key_text_string};
     //@@INCLUDE _shared/symbols_util.rs
     //@@ITEMS util
     }
